@@ -434,7 +434,7 @@ class World(BaseWorld):
                 n_seen = len(seen)
                 self.check_step(t, got, m2seed)
                 row = row + 1 if len(seen) == n_seen else 0
-                if t["steps"] >= TRACE_CAP or row >= len(seen) + 3:
+                if t["steps"] >= TRACE_CAP or row >= min(len(seen) + 3, 12):
                     gen.close()
                     return False, t["cycle"], t["last"], t["prev"], tr.count
 
@@ -471,7 +471,7 @@ class World(BaseWorld):
             raise self.vio("termination", "the trace ends after finitely many distinct steps but "
                            "normal_form gave %s" % outcome)
         if not ended and outcome == "value":
-            raise self.vio("termination", "normal_form returned a value although its trace cycles")
+            self.note("nf_value_on_repeating_trace")   # soundness of the value is checked below
         if outcome == "NotImplementedError":
             self.note("nf_not_implemented")
             if self.prop == "C07":
